@@ -561,7 +561,16 @@ func runCreation(c driver.Case) driver.Result {
 			late++
 		}
 	}
-	if late > 1 { // one value may have been in flight
+	// After Unsubscribe one value may have been in flight. A cancelled context is noticed by the
+	// emitting goroutine at its next select, which picks at random between the cancellation and a
+	// tick that is pending as well - on a loaded machine several times in a row (each with probability
+	// 1/2): for cancellation only "stops" is asserted (the goroutine scan below), plus a bound that a
+	// stopped source exceeds with probability 2^-40.
+	limit := 1
+	if cut == "ctx" {
+		limit = 40
+	}
+	if late > limit {
 		res.Verdict, res.Key = driver.Violated, "C14/"+e.Family+"/keeps-emitting-after-"+cut
 		res.Msg = fmt.Sprintf("%s: %d values were delivered after %s", e.Name, late, cut)
 		return res
